@@ -24,9 +24,11 @@ Proof. destruct k; reflexivity. Qed.
 Lemma curr_addr_exact m s : SegInv m s -> blen s < s_max s -> curr_addr s = s_base s + blen s.
 Proof.
   intros (H1 & H0 & H2 & _) Hlt. unfold curr_addr, sat_add32, CtxSeg.U32MAX, CtxSeg.U32, MapModel.U32MAX, MapModel.U32 in *.
-  assert (E : N.land (blen s) 0xFFFFFFFF = blen s).
-  { change 0xFFFFFFFF with (N.ones 32). rewrite N.land_ones. apply N.mod_small. change (2 ^ 32) with 4294967296. lia. }
-  rewrite E. lia.
+  (* works for both readings of `buffer.len() as u32` (truncating / saturating) *)
+  first [ lia
+        | assert (E : N.land (blen s) 0xFFFFFFFF = blen s)
+            by (change 0xFFFFFFFF with (N.ones 32); rewrite N.land_ones; apply N.mod_small; change (2 ^ 32) with 4294967296; lia);
+          rewrite E; lia ].
 Qed.
 
 Lemma splice_end (buf data : list N) : splice buf (MapModel.len buf) data = buf ++ data.
